@@ -1107,7 +1107,7 @@ class Executor:
         fn = self.mod.funcs.get(name)
         if fn is not None and not fn.is_decl:
             self.funcs_reached.add(name)
-            if len(st.frames) > 64:
+            if len(st.frames) > self.unwind + 8:
                 raise PathEnd("UNWIND", "recursion depth")
             nf = Frame(fn)
             for (pty, pname, attrs), a in zip(fn.params, args):
